@@ -421,8 +421,9 @@ pub fn replay_case(case: &serde_json::Value) -> String {
     return "MACHINERY the recorded case has no bound literals".into();
   }
   let scope = Scope::from(ctx);
+  let normalised = case.get("normalised").and_then(|x| x.as_bool()).unwrap_or(false);
   match evaluate_in(&scope, text) {
-    Ok(v) if v.to_string() == expected => format!("PASS `{}` evaluates to {}", text, show_value(&v)),
+    Ok(v) if v.to_string() == expected || (normalised && crate::rval::show_value_full(&v) == expected) => format!("PASS `{}` evaluates to {}", text, show_value(&v)),
     Ok(v) => format!("FAIL `{}` evaluates to {} but its meaning evaluates to {}", text, show_value(&v), expected),
     Err(e) => format!("FAIL `{}` does not parse or evaluate ({}) but its meaning evaluates to {}", text, e.chars().take(100).collect::<String>(), expected),
   }
@@ -608,6 +609,102 @@ pub fn run() {
       }
     }
   });
+  // member names: the catalogue name is the key of an entry INSIDE a bound value (a context, a context nested in a context,
+  // rows of a list whose rows do not all have the entry), referred to through a path, a filter or an iteration. Oracle:
+  // renaming the key to a fresh single word in the value and in the text does not change the result.
+  {
+    // (value text with the hole K, expression templates with the hole K; `zr` is the bound name)
+    // (template, the same with the key renamed to `zq` and written so that nothing name-like stands next to it: the renamed
+    // form is parsed with every name declared, so its value does not depend on what the lexer knows about the keys)
+    let shapes: Vec<(&str, Vec<(&str, &str)>)> = vec![
+      ("{K: 7}", vec![("zr.K + 1", "(zr.zq) + 1"), ("[zr.K, 1]", "[(zr.zq), 1]"), ("if zr.K > 0 then zr.K - 1 else 0", "if (zr.zq) > 0 then (zr.zq) - 1 else 0")]),
+      ("{k: {K: 7}}", vec![("zr.k.K + 1", "((zr.k).zq) + 1"), ("(zr.k).K * 2", "((zr.k).zq) * 2")]),
+      (
+        "[{m: 1}, {m: 2, K: 7}]",
+        vec![
+          ("zr[2].K + 1", "(zr[2].zq) + 1"),
+          ("for i in zr return i.K - 1", "for i in zr return (i.zq) - 1"),
+          ("zr[K * m > 10]", "zr[(zq) * m > 10]"),
+          ("zr[m = 2 and K - 1 > 0]", "zr[m = 2 and (zq) - 1 > 0]"),
+          ("some i in zr satisfies i.K - 1 = 6", "some i in zr satisfies (i.zq) - 1 = 6"),
+          ("count(zr[K + m > 0])", "count(zr[(zq) + m > 0])"),
+        ],
+      ),
+      ("[null, {m: 2, K: 7}]", vec![("zr[2].K + 1", "(zr[2].zq) + 1"), ("for i in zr return i.K - 1", "for i in zr return (i.zq) - 1")]),
+      ("[{K: 7, m: 1}, {m: 2}]", vec![("zr[1].K + 1", "(zr[1].zq) + 1"), ("for i in zr return i.K - 1", "for i in zr return (i.zq) - 1"), ("zr[K * m > 10]", "zr[(zq) * m > 10]")]),
+      ("[{m: 1}, {m: 2}, {m: 3, K: 7}]", vec![("zr[3].K + 1", "(zr[3].zq) + 1"), ("zr[K - m > 0]", "zr[(zq) - m > 0]"), ("for i in zr return i.K - 1", "for i in zr return (i.zq) - 1")]),
+      ("{k: [{m: 1}, {K: 7}]}", vec![("zr.k[2].K + 1", "((zr.k)[2].zq) + 1"), ("for i in zr.k return i.K - 1", "for i in (zr.k) return (i.zq) - 1")]),
+    ];
+    fn rename_key(v: &Value, from: &str, to: &str) -> Value {
+      match v {
+        Value::List(items) => Value::List(dmntk_feel::values::Values::new(items.as_vec().iter().map(|i| rename_key(i, from, to)).collect())),
+        Value::Context(c) => {
+          let mut out = FeelContext::default();
+          for (k, e) in c.iter() {
+            let name = if k.to_string() == from { Name::from(to) } else { k.clone() };
+            out.set_entry(&name, rename_key(e, from, to));
+          }
+          Value::Context(out)
+        }
+        other => other.clone(),
+      }
+    }
+    let helper: BTreeSet<String> = ["k", "m", "i", "zq", "zr", "item"].iter().map(|s| s.to_string()).collect();
+    cat.par_iter().for_each(|n| {
+      let key = n.normal();
+      for (shape, templates) in &shapes {
+        // the value is built by the implementation from its text, the key written as a string literal
+        let build = |k: &str| -> Option<Value> {
+          let text = shape.replace('K', &format!("\"{}\"", k));
+          let ps = crate::rval::parse_scope_of(&helper);
+          dmntk_feel_parser::parse_expression(&ps, &text, false).ok().and_then(|node| dmntk_feel_evaluator::evaluate(&Scope::default(), &node).ok())
+        };
+        let (value, renamed) = match (build(&key), build("zq")) {
+          (Some(a), Some(b)) => (a, b),
+          _ => continue,
+        };
+        let mut ctx = FeelContext::default();
+        ctx.set_entry(&Name::from("zr"), value);
+        let scope = Scope::from(ctx);
+        let mut rctx = FeelContext::default();
+        rctx.set_entry(&Name::from("zr"), renamed);
+        let rscope = Scope::from(rctx);
+        for (t, safe) in templates {
+          let ps = crate::rval::parse_scope_of(&helper);
+          let expected = match dmntk_feel_parser::parse_expression(&ps, safe, false).map_err(|e| e.to_string()).and_then(|node| dmntk_feel_evaluator::evaluate(&rscope, &node).map_err(|e| e.to_string())) {
+            Ok(v) => rename_key(&v, "zq", &key),
+            Err(_) => {
+              cnt.skipped.fetch_add(1, Ordering::Relaxed);
+              continue;
+            }
+          };
+          for sp in n.spellings() {
+            cnt.cases.fetch_add(1, Ordering::Relaxed);
+            let text = t.replace('K', &sp);
+            let observed = evaluate_in(&scope, &text);
+            cnt.compared.fetch_add(1, Ordering::Relaxed);
+            if !matches!(expected, Value::Null(_)) {
+              cnt.nontrivial.fetch_add(1, Ordering::Relaxed);
+            }
+            let ok = matches!(&observed, Ok(v) if crate::rval::show_value_full(v) == crate::rval::show_value_full(&expected));
+            if !ok {
+              run.violation(
+                &format!("member-name:`{}`:`{}`:{}", shape, t, symbol_class(n)),
+                &format!(
+                  "with zr bound to {}, `{}` evaluates to {} but with the key renamed to a single word it evaluates to {}",
+                  shape.replace('K', &key),
+                  text,
+                  observed.as_ref().map(show_value).unwrap_or_else(|e| e.chars().take(120).collect()),
+                  show_value(&expected)
+                ),
+                json!({"engine":"c10","text":text,"bound_names":["zr"],"bound_literals":[["zr", shape.replace('K', &format!("\"{}\"", key))]],"expected":crate::rval::show_value_full(&expected),"normalised":true,"template":t}),
+              );
+            }
+          }
+        }
+      }
+    });
+  }
   run.sample(json!({"bound_names":["a","b","a-b"],"text":"a - b","meaning":"(5)","rule":"longest bound name wins"}));
   run.sample(json!({"bound_names":["a","b"],"text":"a - b","meaning":"(2) - (3)"}));
   run.sample(json!({"text":"for a b in [1, 2, 3] return a b * 2","meaning":"for zq in [1, 2, 3] return zq * 2"}));
